@@ -174,14 +174,23 @@ def main(argv) -> int:
             res["sdoc"] = sm.docstring.value if sm.docstring else None
             dumper = Dumper()
             dumper.want = main_name
-            dy = griffe.load(pkg, search_paths=[root], force_inspection=True, extensions=griffe.load_extensions(dumper))
-            dm = dy
-            for part in rel:
-                dm = dm.members[part]
-            res["dynamic"] = project(dm)
-            res["ddoc"] = dm.docstring.value if dm.docstring else None
-            res["xdump"] = dumper.got
-            res["main_doc_raw"] = text_to_lines(sys.modules[main_name].__doc__)
+            # a top-level module other.py sits next to the package: every load must import it afresh
+            sys.modules.pop("other", None)
+            try:
+                dy = griffe.load(pkg, search_paths=[root], force_inspection=True, extensions=griffe.load_extensions(dumper))
+                dm = dy
+                for part in rel:
+                    dm = dm.members[part]
+            except Exception as exc:  # noqa: BLE001
+                # the program is executable (the spec's Exec says so): a main module the dynamic agent cannot deliver
+                # is a difference between the agents, not a machinery failure - the driver reports it
+                res["dynamic_missing"] = f"{type(exc).__name__}: {exc}"[:600]
+                dm = None
+            if dm is not None:
+                res["dynamic"] = project(dm)
+                res["ddoc"] = dm.docstring.value if dm.docstring else None
+                res["xdump"] = dumper.got
+            sys.modules.pop("other", None)
         except Exception as exc:  # noqa: BLE001
             import traceback
 
